@@ -127,9 +127,10 @@ static void classify(const cpc_union& u, const Model& um, const In& in) {
     else count("caseA_walk_equal_k");
     return;
   }
+  const bool mined = in.how.find("+rare-keys") != std::string::npos;
   const uint64_t hi = hi_col_coupons(in.m);      // coupons in columns >= 32 (in the source's table unless it is sliding)
-  if (sf == F_SPARSE) { count(in.m.lg_k > lg ? "caseB_downsampling" : "caseB_equal_k"); if (hi) count("caseB_table_with_col_ge32_into_matrix"); return; }
-  if (hi && (sf == F_HYBRID || sf == F_PINNED)) count("caseC_table_with_col_ge32_into_matrix");
+  if (sf == F_SPARSE) { count(in.m.lg_k > lg ? "caseB_downsampling" : "caseB_equal_k"); if (hi) count("caseB_table_with_col_ge32_into_matrix"); if (hi && mined) count("caseB_mined_key_col_ge32_into_matrix"); return; }
+  if (hi && (sf == F_HYBRID || sf == F_PINNED)) { count("caseC_table_with_col_ge32_into_matrix"); if (mined) count("caseC_mined_key_col_ge32_into_matrix"); }
   if (acc) count("switch_to_bit_matrix_before_windowed_source");
   if (sf == F_HYBRID) count(in.m.lg_k > lg ? "caseC_hybrid_downsampling" : "caseC_hybrid_equal_k");
   else if (sf == F_PINNED) count(in.m.lg_k > lg ? "caseC_pinned_downsampling" : "caseC_pinned_equal_k");
